@@ -1,4 +1,226 @@
-import PgsVerif.Model.Walk
+import PgsVerif.Proofs.WalkTree
+/-!
+# C07 — Walk visits every contained entity once, depth-first, honouring prune and error
+
+`Proofs/WalkTree` proves that the transcription of the accept methods IS the generic visitor walk
+`walkForest` over the containment forest of the request (map entries left out).  The clauses of the
+property are theorems about that walk, for every forest, every visitor policy and every state:
+
+* `C07_visits_in_order`   — what is visited is a subsequence of the containment pre-order (container
+                            before contents, subtrees contiguous, siblings in declaration order, no map
+                            entry, nothing twice as far as the pre-order has no repetition);
+* `C07_visits_everything` — with a visitor that always continues, the trace IS the pre-order, every
+                            entity visited with that visitor;
+* `C07_prune`, `C07_replace`, `C07_same` — a nil visitor skips exactly the node's contents; the
+                            visitor returned is the one the contents are visited with;
+* `C07_error_stops`, `C07_error_returned` — after an error nothing more is visited, and the error
+                            returned is the one of the last visit.
+* `C07_pre_is_fileOrder`  — the pre-order of a file's forest is the declarative order `fileOrder`
+                            the Φ checker folds over.
+-/
 namespace Pgs.AST
-theorem placeholder_C07 : True := trivial
+
+theorem act_nil (r : Ref) : Policy.act [] r = .same := rfl
+
+def Failing (pol : Policy) (r : Ref) : Prop := pol.act r = .failNil ∨ pol.act r = .failKeep
+
+theorem visit_trace (pol : Policy) (v : Nat) (r : Ref) (ws : WS) : (visit pol v r ws).1.trace = (r, v) :: ws.trace := by
+  unfold visit; cases pol.act r <;> rfl
+
+theorem visit_err (pol : Policy) (v : Nat) (r : Ref) (ws : WS) :
+    (Failing pol r ∧ (visit pol v r ws).1.err = some r) ∨ (¬ Failing pol r ∧ (visit pol v r ws).1.err = ws.err) := by
+  unfold visit Failing; cases h : pol.act r <;> simp
+
+/-- **C07 (visited ⊆ contained, in pre-order)** -/
+theorem C07_visits_in_order (pol : Policy) : ∀ (t : Forest) (v : Nat) (ws : WS),
+    ∃ vs : List (Ref × Nat), (walkForest pol v t ws).trace = vs.reverse ++ ws.trace ∧ (vs.map (·.1)).Sublist t.pre := by
+  intro t
+  induction t with
+  | nil => intro v ws; exact ⟨[], rfl, List.Sublist.refl _⟩
+  | node r k n ihk ihn =>
+    intro v ws
+    simp only [walkForest, Forest.pre]
+    by_cases he : ws.err.isSome = true
+    · simp only [he, if_true]; exact ⟨[], rfl, List.nil_sublist _⟩
+    · simp only [he, Bool.false_eq_true, if_false]
+      have ht := visit_trace pol v r ws
+      cases hv : visit pol v r ws with
+      | mk ws1 o =>
+        rw [hv] at ht; simp only at ht
+        have skip : ∃ vs : List (Ref × Nat), (walkForest pol v n ws1).trace = vs.reverse ++ ws.trace ∧
+            (vs.map (·.1)).Sublist (r :: k.pre ++ n.pre) := by
+          obtain ⟨vn, h1, h2⟩ := ihn v ws1
+          refine ⟨(r, v) :: vn, by rw [h1, ht]; simp, ?_⟩
+          simp only [List.map_cons]
+          exact List.Sublist.cons₂ _ (List.sublist_append_of_sublist_right h2)
+        cases o with
+        | none => exact skip
+        | some v1 =>
+          simp only
+          by_cases he1 : ws1.err.isSome = true
+          · simp only [he1, if_true]; exact skip
+          · simp only [he1, Bool.false_eq_true, if_false]
+            obtain ⟨vk, k1, k2⟩ := ihk v1 ws1
+            obtain ⟨vn, h1, h2⟩ := ihn v (walkForest pol v1 k ws1)
+            refine ⟨(r, v) :: (vk ++ vn), by rw [h1, k1, ht]; simp, ?_⟩
+            simp only [List.map_cons, List.map_append, List.cons_append]
+            exact List.Sublist.cons₂ _ (List.Sublist.append k2 h2)
+
+/-- **C07 (everything, once, in order)**: a visitor that always continues with itself sees exactly
+    the containment pre-order. -/
+theorem C07_visits_everything : ∀ (t : Forest) (v : Nat) (tr : List (Ref × Nat)),
+    walkForest [] v t ⟨tr, none⟩ = ⟨(t.pre.map (·, v)).reverse ++ tr, none⟩ := by
+  intro t
+  induction t with
+  | nil => intro v tr; rfl
+  | node r k n ihk ihn =>
+    intro v tr
+    simp only [walkForest, visit, act_nil, Forest.pre]
+    simp [ihk, ihn]
+
+theorem walk_step (pol : Policy) (v : Nat) (r : Ref) (k n : Forest) (tr : List (Ref × Nat)) :
+    walkForest pol v (.node r k n) ⟨tr, none⟩ =
+      match pol.act r with
+      | .same => walkForest pol v n (walkForest pol v k ⟨(r, v) :: tr, none⟩)
+      | .replace u => walkForest pol v n (walkForest pol u k ⟨(r, v) :: tr, none⟩)
+      | .prune => walkForest pol v n ⟨(r, v) :: tr, none⟩
+      | .failNil => ⟨(r, v) :: tr, some r⟩
+      | .failKeep => ⟨(r, v) :: tr, some r⟩ := by
+  simp only [walkForest, visit]
+  cases pol.act r <;> simp [walkForest_err]
+
+/-- **C07 (prune)**: a nil visitor skips exactly that node's contents — the walk goes on with the
+    next sibling, whatever the contents are. -/
+theorem C07_prune (pol : Policy) (v : Nat) (r : Ref) (k n : Forest) (tr : List (Ref × Nat)) (h : pol.act r = .prune) :
+    walkForest pol v (.node r k n) ⟨tr, none⟩ = walkForest pol v n ⟨(r, v) :: tr, none⟩ := by
+  rw [walk_step, h]
+
+/-- **C07 (replacement)**: the visitor returned is the one consulted for the contents, and only there. -/
+theorem C07_replace (pol : Policy) (v u : Nat) (r : Ref) (k n : Forest) (tr : List (Ref × Nat)) (h : pol.act r = .replace u) :
+    walkForest pol v (.node r k n) ⟨tr, none⟩ = walkForest pol v n (walkForest pol u k ⟨(r, v) :: tr, none⟩) := by
+  rw [walk_step, h]
+
+theorem C07_same (pol : Policy) (v : Nat) (r : Ref) (k n : Forest) (tr : List (Ref × Nat)) (h : pol.act r = .same) :
+    walkForest pol v (.node r k n) ⟨tr, none⟩ = walkForest pol v n (walkForest pol v k ⟨(r, v) :: tr, none⟩) := by
+  rw [walk_step, h]
+
+/-- **C07 (an error stops the walk at once)** -/
+theorem C07_error_stops (pol : Policy) (v : Nat) (t : Forest) (ws : WS) (h : ws.err.isSome = true) :
+    walkForest pol v t ws = ws := walkForest_err pol v t ws h
+
+theorem C07_fail (pol : Policy) (v : Nat) (r : Ref) (k n : Forest) (tr : List (Ref × Nat)) (h : Failing pol r) :
+    walkForest pol v (.node r k n) ⟨tr, none⟩ = ⟨(r, v) :: tr, some r⟩ := by
+  rw [walk_step]; rcases h with h | h <;> rw [h]
+
+/-- **C07 (the error returned)**: if a walk started without error ends with one, it is the error of
+    the last visit made, and that visit failed. -/
+theorem C07_error_returned (pol : Policy) : ∀ (t : Forest) (v : Nat) (ws : WS), ws.err = none →
+    ∀ e, (walkForest pol v t ws).err = some e →
+      Failing pol e ∧ ∃ v', (walkForest pol v t ws).trace.head? = some (e, v') := by
+  intro t
+  induction t with
+  | nil => intro v ws h0 e he; simp [walkForest, h0] at he
+  | node r k n ihk ihn =>
+    intro v ws h0 e he
+    obtain ⟨tr, er⟩ := ws
+    simp only at h0; subst h0
+    rw [walk_step] at he ⊢
+    cases ha : pol.act r with
+    | same =>
+      simp only [ha] at he ⊢
+      cases hk : (walkForest pol v k ⟨(r, v) :: tr, none⟩).err with
+      | none => exact ihn v _ hk e he
+      | some e' =>
+        have hs : (walkForest pol v k ⟨(r, v) :: tr, none⟩).err.isSome = true := by simp [hk]
+        rw [walkForest_err _ _ _ _ hs] at he ⊢
+        exact ihk v _ rfl e he
+    | replace u =>
+      simp only [ha] at he ⊢
+      cases hk : (walkForest pol u k ⟨(r, v) :: tr, none⟩).err with
+      | none => exact ihn v _ hk e he
+      | some e' =>
+        have hs : (walkForest pol u k ⟨(r, v) :: tr, none⟩).err.isSome = true := by simp [hk]
+        rw [walkForest_err _ _ _ _ hs] at he ⊢
+        exact ihk u _ rfl e he
+    | prune => simp only [ha] at he ⊢; exact ihn v _ rfl e he
+    | failNil => simp only [ha] at he ⊢; cases he; exact ⟨.inl ha, v, rfl⟩
+    | failKeep => simp only [ha] at he ⊢; cases he; exact ⟨.inr ha, v, rfl⟩
+
+/-! ### the forest's pre-order is the declarative order of the Φ checker -/
+theorem leavesF_pre (rs : List Ref) : (leavesF rs).pre = rs := by
+  induction rs with
+  | nil => rfl
+  | cons r rs ih => simp [leavesF, Forest.pre, ih]
+
+theorem enumsF_pre (fi : Nat) (p : List Nat) (tag : Nat) : ∀ (es : List EnumD) (i : Nat),
+    (enumsF fi p tag i es).pre = ((idx es).map fun (q : Nat × EnumD) => enumOrder ⟨fi, p ++ [tag, i + q.1]⟩ q.2.values.length).flatten := by
+  intro es
+  induction es with
+  | nil => intro i; rfl
+  | cons e es ih =>
+    intro i
+    rw [idx_cons]
+    simp only [enumsF, Forest.pre, leavesF_pre, ih, List.map_cons, List.flatten_cons, List.map_map, Nat.add_zero, enumOrder,
+      List.cons_append]
+    congr 3
+    apply List.map_congr_left
+    intro q _
+    simp only [Function.comp]
+    have : i + 1 + q.1 = i + (q.1 + 1) := by omega
+    rw [this]
+
+theorem servicesF_pre (fi : Nat) : ∀ (ss : List ServiceD) (i : Nat),
+    (servicesF fi i ss).pre = ((idx ss).map fun (q : Nat × ServiceD) =>
+      (⟨fi, [6, i + q.1]⟩ : Ref) :: childRefs fi [6, i + q.1] 2 q.2.methods.length).flatten := by
+  intro ss
+  induction ss with
+  | nil => intro i; rfl
+  | cons s ss ih =>
+    intro i
+    rw [idx_cons]
+    simp only [servicesF, Forest.pre, leavesF_pre, ih, List.map_cons, List.flatten_cons, List.map_map, Nat.add_zero,
+      List.cons_append]
+    congr 3
+    apply List.map_congr_left
+    intro q _
+    simp only [Function.comp]
+    have : i + 1 + q.1 = i + (q.1 + 1) := by omega
+    rw [this]
+
+theorem msgsF_pre (fi : Nat) : ∀ (ms : Msgs) (p : List Nat) (tag i : Nat),
+    (msgsF fi p tag i ms).pre = msgsOrder fi p tag i ms := by
+  intro ms
+  induction ms with
+  | nil => intro p tag i; rfl
+  | cons h nested rest ih1 ih2 =>
+    intro p tag i
+    simp only [msgsF, msgsOrder]
+    by_cases hm : h.mapEntry = true
+    · simp [hm, ih2]
+    · have hm' : h.mapEntry = false := by simpa using hm
+      simp only [hm', Bool.false_eq_true, if_false, Forest.pre, Forest.pre_append, leavesF_pre, ih1, ih2, enumsF_pre,
+        Nat.zero_add, List.cons_append, List.append_assoc]
+
+/-- **C07 (the pre-order is the declared containment order)** -/
+theorem C07_pre_is_fileOrder (fi : Nat) (f : FileD) : (fileF fi f).pre = fileOrder fi f := by
+  simp only [fileF, fileKidsF, Forest.pre, Forest.pre_append, leavesF_pre, enumsF_pre, msgsF_pre, servicesF_pre,
+    fileOrder, Nat.zero_add, List.nil_append, List.append_nil, List.cons_append, List.append_assoc]
+
+/-- `Walk(v, file)`: the model of the real entry point is the generic walk over the file's forest;
+    through `PassThroughVisitor` the file itself is answered by the wrapper and its contents walked. -/
+theorem C07_walk_file (pol : Policy) (w : World) (fi : Nat) (f : FileD) (hf : w.files[fi]? = some f) (hfi : fi < 900000) :
+    walkFrom pol w ⟨fi, []⟩ false = walkForest pol 0 (fileF fi f) ⟨[], none⟩ ∧
+    walkFrom pol w ⟨fi, []⟩ true = walkForest pol 0 (fileKidsF fi f) ⟨[], none⟩ := by
+  have hge : ¬ (fi ≥ 900000) := by omega
+  constructor
+  · simp only [walkFrom, hge, if_false, hf, Bool.false_eq_true]
+    simp only [fileF, walkForest]
+    cases hv : visit pol 0 ⟨fi, []⟩ ⟨[], none⟩ with
+    | mk ws1 o =>
+      cases o with
+      | none => simp
+      | some v1 => simp [fileKidsF, walkForest_append, acceptEnums_eq, acceptMsgs_eq, acceptServices_eq, acceptLeaves_eq]
+  · simp only [walkFrom, hge, if_false, hf, if_true]
+    simp [fileKidsF, walkForest_append, acceptEnums_eq, acceptMsgs_eq, acceptServices_eq, acceptLeaves_eq]
+
 end Pgs.AST
